@@ -179,6 +179,12 @@ def build_transform(t, d):
         return mt.TransformChain([a, b])
     if kind == "withdims":
         return mt.WithDims(t["dims"])
+    if kind == "withdims_mask":
+        return mt.WithDims(np.array([k in t["dims"] for k in range(d)]))
+    if kind == "withdims_slice":
+        return mt.WithDims(slice(t["dims"][0], t["dims"][-1] + 1))
+    if kind == "rect":
+        return mt.Homogeneous(np.array([[L.fl(x) for x in row] for row in t["M"]]))
     S = np.array([[0.0, 0], [4, 0], [4, 3], [0, 4], [2, 2]])
     T = np.array([[0.0, 0], [5, 1], [4, 4], [-1, 3], [2, 1]])
     if kind == "pwa":
@@ -243,7 +249,7 @@ def check_apply(o):
     tbuf0 = [(p, b.copy()) for p, b in buffers(t)]
     struct0 = _struct_tree(s)
     r = t.apply(s)
-    exact = c["t"]["kind"] in ("homog", "chain", "withdims")
+    exact = c["t"]["kind"] in ("homog", "chain", "withdims", "withdims_mask", "withdims_slice")
     tol = 1e-9
     e = _expect_shape(r, o["result"], tol)
     if e:
